@@ -122,8 +122,55 @@ func init() {
 					return
 				}
 			}
+			c14RetryPrefix(w, bt)
 		},
 	})
+}
+
+// c14RetryPrefix: metamorphic probe for effects of a failed transaction that are not visible in the stores (state
+// kept outside the transaction's rollback scope). A top-level multi-message transaction failed at message index
+// k >= 1, so its first message executed successfully against the pre-state and was rolled back. If the failed
+// transaction changed nothing, the same first message submitted alone right afterwards meets the same state and
+// must execute successfully as well (a retry that is refused before execution - e.g. the payer can no longer afford
+// the fee after paying for the failed transaction - decides nothing).
+func c14RetryPrefix(w *World, bt *BuiltTx) {
+	if len(bt.Ops) < 2 || bt.Tx.Wrap != WrapTop || bt.Tx.Fault != 0 || bt.Panicked || w.Notes["c14.retrying"] == true || bt.Tx.Repeat > 1 {
+		return
+	}
+	i := strings.Index(bt.Log, "message index: ")
+	if i < 0 {
+		return
+	}
+	var k int
+	if _, err := fmt.Sscanf(bt.Log[i:], "message index: %d", &k); err != nil || k < 1 {
+		return
+	}
+	first := bt.Ops[0]
+	switch first.Op.Kind {
+	case ParamsEnt, ParamsWrk, ParamsBcn, ParamsStr, AuthzGrant, FeeGrantOp:
+		return
+	}
+	// the retry names exactly what the first message named: resolve nothing anew
+	t := Tx{Ops: []Op{*first.Op}, Fee: FeeSpec{Mode: FeeExact}, FeePayer: bt.Tx.FeePayer, Granter: bt.Tx.Granter}
+	w.Notes["c14.retrying"] = true
+	defer delete(w.Notes, "c14.retrying")
+	before := first.Desc
+	rt := w.RunTx(&t)
+	if w.stop() || rt == nil || !rt.Delivered || len(rt.Ops) != 1 {
+		return
+	}
+	if rt.Ops[0].Desc != before {
+		w.Class("c14.retry-resolved-differently")
+		return // the reference resolved to something else (should not happen: the population is unchanged)
+	}
+	if !rt.AntePassed {
+		w.Class("c14.retry-undecided-ante")
+		return
+	}
+	w.Class("c14.retry-of-rolled-back-first-message")
+	if !rt.OK {
+		w.Fail("C14", "the first message of a failed %d-message transaction (failed at message index %d) had executed successfully and was rolled back; submitted alone right afterwards it is refused (code %d/%s: %s): the failed transaction left something behind outside the stores", len(bt.Ops), k, rt.Res.Code, rt.Res.Codespace, short(rt.Log))
+	}
 }
 
 func trim(s []string, n int) []string {
